@@ -357,6 +357,7 @@ def render(case):
                 P.append("EQUILIBRIUM_PHASES %d\n Calcite 0 %s" % (c, fmt(solids["calcite"][i])))
             if solids["cec"] is not None:
                 P.append("EXCHANGE %d\n X %s\n -equilibrate %d" % (c, fmt(solids["cec"][i]), c))
+        P.append("USE solution none")      # no batch reaction in the defining simulation
     P.append("END")
     if case["kind"] == "A":
         L = ["ADVECTION", " -cells %d" % n, " -shifts %d" % case["shifts"], " -time_step %s" % fmt(case["timest"]),
